@@ -14,8 +14,9 @@ import Cirbo.Proofs.RemoveGate
 -- OBLIGATION: c02_make_block_from_slice_invariant
 -- OBLIGATION: c02_left_connection_invariant
 -- OBLIGATION: c02_rename_gate_invariant
+-- OBLIGATION: c02_remove_block_invariant
 -- OBLIGATION: c02_history_extended
--- PARTIAL: the invariant theorem covers add_gate/emplace_gate, add_inputs, mark_as_output, set_outputs, set_inputs, order_inputs, order_outputs, replace_inputs, make_block, delete_block, remove_gate, rename_gate, copy, make_block_from_slice and every left connection (connect_circuit(right_connect=False), connect_left, extend_circuit, add_circuit) — and into_bench (C14: c14_into_bench_keeps_invariant). remove_block, the right-connect direction (connect_right, connect_inputs), replace_subcircuit are modelled one-to-one (Model/Mutate.lean, Mutate2.lean) and compared field by field with the code after every call of random histories, and every state the code produces goes through the Lean checker checkWFU, but their invariant lemmas are not proved yet. "A copy is equal to its original" and "shares no mutable state" are correspondence-only (Lean values cannot alias).
+-- PARTIAL: the invariant theorem covers add_gate/emplace_gate, add_inputs, mark_as_output, set_outputs, set_inputs, order_inputs, order_outputs, replace_inputs, make_block, delete_block, remove_gate, remove_block, rename_gate, copy, make_block_from_slice and every left connection (connect_circuit(right_connect=False), connect_left, extend_circuit, add_circuit) — and into_bench (C14: c14_into_bench_keeps_invariant). the right-connect direction (connect_right, connect_inputs), replace_subcircuit are modelled one-to-one (Model/Mutate.lean, Mutate2.lean) and compared field by field with the code after every call of random histories, and every state the code produces goes through the Lean checker checkWFU, but their invariant lemmas are not proved yet. "A copy is equal to its original" and "shares no mutable state" are correspondence-only (Lean values cannot alias).
 -/
 namespace Cirbo
 
@@ -70,6 +71,12 @@ theorem c02_left_connection_invariant {c other c' : Circuit} {thisC otherC : Lis
 theorem c02_rename_gate_invariant {c c' : Circuit} {old new : Label} (hw : WFS c)
     (h : c.renameGate old new = .ok c') : WFS c' := renameGate_wfs hw h
 
+/-- `remove_block` (a block none of whose gates is used from outside) removes all its gates at once and
+keeps every clause: the intermediate states of the loop over `_remove_gate` are not well formed, the
+final one is -/
+theorem c02_remove_block_invariant {c c' : Circuit} {name : Label} (hw : WFS c)
+    (h : c.removeBlock name = .ok c') : WFS c' := removeBlock_wfs hw h
+
 /-- histories over the extended set of calls -/
 theorem c02_history_extended (ops : List XOp) {c c' : Circuit} (hw : WFS c)
     (hv : ∀ op ∈ ops, op.valid) (h : runXOps c ops = .ok c') : WFS c' := runXOps_wfs ops hw hv h
@@ -91,6 +98,7 @@ example : ∃ c', runOps Circuit.empty
 #print axioms c02_make_block_from_slice_invariant
 #print axioms c02_left_connection_invariant
 #print axioms c02_rename_gate_invariant
+#print axioms c02_remove_block_invariant
 #print axioms c02_history_extended
 
 end Cirbo
